@@ -11,9 +11,9 @@
     body is the node's amount and description (or output names).  It needs the
     string-exact model of the cell bodies (Model/Html.v) and is handled
     separately; nothing in this file speaks about [td_body]. *)
-From Coq Require Import List Arith NArith Bool String.
+From Coq Require Import List Arith NArith Bool String Permutation.
 From RG Require Import Base.Str Model.Table Model.Layout Model.HtmlTable Spec.LayoutSpec
-  Proofs.LayoutTiling Proofs.LayoutArith Proofs.HtmlTablePlace Proofs.HtmlTableEmit.
+  Proofs.LayoutTiling Proofs.LayoutArith Proofs.HtmlTablePlace Proofs.HtmlTableEmit Proofs.HtmlTableMore.
 Import ListNotations.
 Local Open Scope N_scope.
 
@@ -26,18 +26,30 @@ Theorem C04_html_realises_grid : forall body t,
 Proof. exact html_realises_grid. Qed.
 Print Assumptions C04_html_realises_grid.
 
+(** [geometry t] is the whole abstract grid: it lists every cell of the table exactly once
+    (so "the browser's table = geometry t" speaks about all cells, each once, none invented). *)
+Theorem C04_geometry_complete : forall t,
+  TilingT t ->
+  Permutation (map (fun e => (e_row e, e_col e, e_rows e, e_cols e)) (t_cells t)) (snd (geometry t)).
+Proof. exact geometry_complete. Qed.
+Print Assumptions C04_geometry_complete.
+
 (** With C02_tiling: for the table of every well-formed recipe tree. *)
 Theorem C04_html_realises_tree : forall body (t : ltree),
   wf t = true ->
   exists tb, recipe_tree_to_table t = Ok tb
              /\ TilingT tb
              /\ html_place (spans (emit body tb)) = Some (geometry tb).
-Proof.
-  intros body t Hwf. destruct (layout_ok t true [] Hwf) as [E T].
-  exists (alayout true [] t). split; [exact E|]. split; [exact T|].
-  apply html_realises_grid. exact T.
-Qed.
+Proof. exact html_realises_tree. Qed.
 Print Assumptions C04_html_realises_tree.
+
+(** No [<tr>] of a recipe table is empty (column 0 holds only leaves and headers, each one
+    row high), so no row relies on the browser's handling of empty rows. *)
+Theorem C04_every_row_nonempty : forall body (t : ltree) tb,
+  wf t = true -> recipe_tree_to_table t = Ok tb ->
+  forall row, In row (emit body tb) -> row <> [].
+Proof. exact every_row_nonempty. Qed.
+Print Assumptions C04_every_row_nonempty.
 
 (** Every [<td>] is the rendering of a cell of the table (nothing invented). *)
 Theorem C04_tds_are_cells : forall body t row d,
